@@ -37,6 +37,10 @@ def build_template(ctx):
     # a checkpoint whose own name holds no "chk" while a directory above it does
     os.makedirs(os.path.join(root, "chk_runs"))
     shutil.copytree(os.path.join(root, "chk00005"), os.path.join(root, "chk_runs", "sim00100"))
+    # plotfiles kept in a results directory that is also asked for as the output directory
+    os.makedirs(os.path.join(root, "plt_runs"))
+    shutil.copytree(os.path.join(root, "plt00010"), os.path.join(root, "plt_runs", "plt00100"))
+    shutil.copytree(os.path.join(root, "plt00020"), os.path.join(root, "plt_runs", "plt00200"))
     with open(os.path.join(root, "rec.py"), "w") as f:
         f.write(tools.USER_RECIPE)
     # the plotfile of the same step beside the checkpoint (holds the species names a conversion can take from it)
@@ -49,7 +53,8 @@ def build_template(ctx):
     return root
 
 
-INPUTS = ["plt00010", "plt00020", "plt00040", "plt2d00030", "chk00005", "restart7", "chk_runs/sim00100", "chk00007", "plt00007", "plt00050_ck"]
+INPUTS = ["plt00010", "plt00020", "plt00040", "plt2d00030", "chk00005", "restart7", "chk_runs/sim00100", "chk00007", "plt00007", "plt00050_ck",
+          "plt_runs/plt00100", "plt_runs/plt00200"]
 
 
 def form_path(root, name, form):
@@ -70,6 +75,8 @@ def invocations():
     def O(root, kind, name):
         if kind == "explicit-parent":
             return os.path.join(root, "chk_runs")        # an existing directory that holds the checkpoint (the run directory)
+        if kind == "explicit-results":
+            return os.path.join(root, "plt_runs")        # an existing directory that holds the input plotfile(s)
         return None if kind == "default" else (name if kind == "explicit-rel" else os.path.join(root, name))
     inv = []
     inv.append(("colander", lambda r, f, o: tools.colander(P(r, "plt00010", f), O(r, o, "out_col"), ["temp", "density"]),
@@ -106,6 +113,10 @@ def invocations():
                 "chk_runs/sim00100", ["default"]))
     inv.append(("chk2plt-intorundir", lambda r, f, o: tools.chk2plt(P(r, "chk_runs/sim00100", f), O(r, o, "out_plt")),
                 "chk_runs/sim00100", ["explicit-parent"]))
+    inv.append(("colander-intoresults", lambda r, f, o: tools.colander(P(r, "plt_runs/plt00100", f), O(r, o, "out_col"), ["temp"]),
+                "plt_runs/plt00100", ["explicit-results"]))
+    inv.append(("combine-intoresults", lambda r, f, o: tools.combine(P(r, "plt_runs/plt00100", f), P(r, "plt_runs/plt00200", f), O(r, o, "out_cmb")),
+                "plt_runs/plt00100", ["explicit-results"]))
     inv.append(("marinate", lambda r, f, o: tools.marinate(P(r, "plt00010", f)), "plt00010", ["default"]))
     inv.append(("taste", lambda r, f, o: tools.taste(P(r, "plt00010", f), boxes_coordinates=True), "plt00010", ["none"]))
     inv.append(("pestle", lambda r, f, o: tools.pestle(P(r, "plt00010", f), "density", None, True), "plt00010", ["none"]))
@@ -126,6 +137,22 @@ def _truncate(root, d, prefix, cut, level="Level_0", which=0):
     data = open(fn, "rb").read()
     with open(fn, "wb") as f:
         f.write(data[:len(data) - cut])
+
+
+def _cut_at_fab(root, d, prefix, level="Level_0"):
+    """cut a binary file holding several FABs exactly where its last FAB begins (an interrupted copy that stopped between
+    two FABs): the file is a valid sequence of FABs, one fewer than the level header announces"""
+    for level in sorted(x for x in os.listdir(os.path.join(root, d)) if x.startswith("Level_")):
+        lv = os.path.join(root, d, level)
+        for name in sorted(f for f in os.listdir(lv) if f.startswith(prefix)):
+            fn = os.path.join(lv, name)
+            data = open(fn, "rb").read()
+            k = data.rfind(b"FAB ((")
+            if k > 0:
+                with open(fn, "wb") as f:
+                    f.write(data[:k])
+                return
+    raise RuntimeError("no binary file with two FABs")
 
 
 # (name, preparation outside the audited run, invocation)
@@ -167,6 +194,10 @@ FAILING = [
     ("colander-truncated-level1", lambda r: _truncate(r, "plt00010", "Cell_D", 8, level="Level_1", which=-1), lambda r: tools.colander("plt00010", "out_col", ["density", "temp"])),
     ("combine-truncated-first", lambda r: _truncate(r, "plt00010", "Cell_D", 16), lambda r: tools.combine("plt00010", "plt00020", "out_cmb")),
     ("combine-truncated-second", lambda r: _truncate(r, "plt00020", "Cell_D", 16), lambda r: tools.combine("plt00010", "plt00020", "out_cmb")),
+    ("combine-cut-between-fabs-first", lambda r: _cut_at_fab(r, "plt00010", "Cell_D"), lambda r: tools.combine("plt00010", "plt00020", "out_cmb")),
+    ("combine-cut-between-fabs-second", lambda r: _cut_at_fab(r, "plt00020", "Cell_D"), lambda r: tools.combine("plt00010", "plt00020", "out_cmb")),
+    ("colander-cut-between-fabs", lambda r: _cut_at_fab(r, "plt00010", "Cell_D"), lambda r: tools.colander("plt00010", "out_col", ["temp", "density"])),
+    ("chef-cut-between-fabs", lambda r: _cut_at_fab(r, "plt00010", "Cell_D"), lambda r: tools.chef("plt00010", "rec.py", "out_ck")),
     ("combine-bybox-truncated", lambda r: _truncate(r, "plt00040", "Cell_D", 16), lambda r: tools.combine("plt00010", "plt00040", "out_cmb4")),
     ("chef-truncated", lambda r: _truncate(r, "plt00010", "Cell_D", 16), lambda r: tools.chef("plt00010", "rec.py", "out_ck")),
     ("chk2plt-truncated", lambda r: _truncate(r, "chk00005", "state_D", 16), lambda r: tools.chk2plt("chk00005", "out_plt")),
@@ -231,7 +262,7 @@ def allowed_roots(root, tool, out_kind, inp_name):
         return []
     if out_kind != "default":
         return [os.path.join(root, n) for n in ("out_col", "out_col2", "out_cmb", "out_cmb4", "out_cmb5", "out_ck", "out_cks", "out_arr", "out_slc", "out_arr2",
-                                                "out_grid", "out_plt", "plt00010.pkl", "chk_runs")]
+                                                "out_grid", "out_plt", "plt00010.pkl", "chk_runs", "plt_runs")]
     # documented defaults: beside the input (same parent directory) or in the working directory, never inside the input
     base = tool.split("-")[0]
     if base == "chef":
